@@ -127,6 +127,35 @@ def exhaustive(rep, tier):
         if cov and res.ok:
             C.check_coverage(res, ACTIONS, f"MGCycle_{name}")
     rep.cov["exhaustive"] = True
+    ok &= good_numbers(rep)
+    return ok
+
+
+def good_numbers(rep):
+    """Extra coverage (integer part of the automatic gridding): the numbers
+    meshes.good_mg_cell_nr returns are exactly the specification's GoodNr and
+    have the halvings the hierarchy needs."""
+    import emg3d
+    res = C.run_tlc("GoodNr", "GoodNr.cfg", timeout=600)
+    ok = C.expect_tlc_ok(rep, "GoodNr: every admitted cell number has the "
+                         "required halvings", res, "C05")
+    insts = []
+    for mx in (16, 100, 384, 1024):
+        for ml in (2, 3, 5, 7, 9, 19):
+            for md in range(0, 6):
+                out = emg3d.meshes.good_mg_cell_nr(mx, ml, md)
+                insts.append({"mx": mx, "ml": ml, "md": md,
+                              "out": [int(x) for x in out]})
+    bad = C.validate_batch(rep, "GoodNr", "GoodNrCode.cfg", insts,
+                           "good_mg_cell_nr")
+    for i, why in bad:
+        x = insts[i]
+        rep.violation(f"C05:good_mg_cell_nr:{x['mx']},{x['ml']},{x['md']}",
+                      f"good_mg_cell_nr({x['mx']}, {x['ml']}, {x['md']}) = "
+                      f"{x['out'][:12]}... differs from the specification",
+                      x)
+        ok = False
+    rep.cov["good_mg_cell_nr_lists_checked"] = len(insts)
     return ok
 
 
